@@ -111,6 +111,7 @@ class AbstractModel(ModelObject):
         for _, model in tuples:
             if model is not self:
                 model.freeze()
+        self._set_tuple_priors_frozen(True)
         self._is_frozen = True
 
     def unfreeze(self):
@@ -124,7 +125,16 @@ class AbstractModel(ModelObject):
         for _, model in tuples:
             if model is not self:
                 model.unfreeze()
+        self._set_tuple_priors_frozen(False)
         self._frozen_cache = dict()
+
+    def _set_tuple_priors_frozen(self, is_frozen):
+        # a TuplePrior holds parameters of this model: it is frozen and thawed with it
+        from autofit.mapper.prior.tuple_prior import TuplePrior
+
+        for value in self.__dict__.values():
+            if isinstance(value, TuplePrior):
+                value._is_frozen = is_frozen
 
     def __add__(self, other):
         instance = self.__class__()
